@@ -1358,7 +1358,7 @@ exec_op(Ctx &c, size_t k)
         }
         if ((p.oracles & OR_SCRUB) && t.fifo.empty() && op.kind != OP_KEYPREP && op.kind != OP_QUEUE_SIZE && op.kind != OP_GET_NEXT &&
             op.kind != OP_MISUSE && op.kind != OP_MARK)
-                residue_scan(c, t, g_callctx.name, true);
+                residue_scan(c, t, g_callctx.name, true, false);
         if (p.prop == "C17" && t.mgr.m) {
                 // what the user reads: the manager's own code, or - when that is 0 - the process-wide mirror
                 const int e = mgr_errno(t.mgr);
